@@ -364,11 +364,21 @@ class CallbackAbort(BaseException):
 
 
 class _Raiser(object):
-    def __init__(self, log, fail):
-        self.log, self.fail = log, fail
+    def __init__(self, log, fail, sess=None):
+        self.log, self.fail, self.sess = log, fail, sess
+        self.reentered = []
 
     def __call__(self, path, n, total):
         self.log.append((path, n, total))
+        if self.fail == 'reenter':
+            # the callback uses the device itself (another command on the same object, from inside the transfer)
+            r = self.sess.device.shell('reenter', decode=False, read_timeout_s=2.0)
+            if hasattr(r, '__await__'):
+                async def wait():
+                    self.reentered.append(await r)
+                return wait()
+            self.reentered.append(r)
+            return None
         if self.fail == 'base':
             raise CallbackAbort('callback failure (BaseException)')
         if self.fail:
@@ -380,15 +390,24 @@ def _as_async(cb, kind):
     if kind == 'obj':
         class Obj(object):
             async def __call__(self, path, n, total):
-                return cb(path, n, total)
+                v = cb(path, n, total)
+                if hasattr(v, '__await__'):
+                    v = await v
+                return v
         return Obj()
     if kind == 'forward':
         async def inner(path, n, total):
-            return cb(path, n, total)
+            v = cb(path, n, total)
+            if hasattr(v, '__await__'):
+                v = await v
+            return v
         return lambda path, n, total: inner(path, n, total)       # a plain function that returns an awaitable
 
     async def f(path, n, total):
-        return cb(path, n, total)
+        v = cb(path, n, total)
+        if hasattr(v, '__await__'):
+            v = await v
+        return v
     return f
 
 
@@ -545,7 +564,10 @@ def run_op(s, op, a, tmp, i, rr):
     cb = op.get('cb')
     log = []
     rr.extra.setdefault('cb', {})[i] = log
-    cbf = _Raiser(log, 'base' if cb == 'raise_base' else (cb == 'raise')) if cb else None
+    cbf = _Raiser(log, 'base' if cb == 'raise_base' else ('reenter' if cb == 'reenter' else (cb == 'raise')), sess=s) if cb else None
+    if cb == 'reenter':
+        s.dev.shell_scripts[b'shell:reenter'] = [b're-', b'entered']
+        rr.extra.setdefault('reentered', {})[i] = cbf.reentered
     if cbf is not None and s.mode == 'async':
         cbf = _as_async(cbf, op.get('cb_kind', ('def', 'obj', 'forward')[(i + len(a.get('path', a.get('dpath', '')))) % 3]))
     if api == 'pull':
